@@ -17,6 +17,8 @@ type zzProt13 struct {
 	opens  *int
 	id     int
 	used   *int
+	seen   *[]recordlayer.UnifiedHeader // headers handed to Open (they become the AEAD additional data)
+	seenN  *[]int                       // length of the ciphertext handed to Open
 }
 
 func (p *zzProt13) Seal(h recordlayer.UnifiedHeader, seq uint64, ct protocol.ContentType, pt []byte) (recordlayer.CiphertextRecord13, error) {
@@ -29,6 +31,8 @@ func (p *zzProt13) UnmaskSequenceNumber(h recordlayer.UnifiedHeader, enc []byte)
 
 func (p *zzProt13) Open(h recordlayer.UnifiedHeader, seq uint64, enc []byte) (recordlayer.InnerPlaintext, error) {
 	*p.opens++
+	*p.seen = append(*p.seen, h)
+	*p.seenN = append(*p.seenN, len(enc))
 	if !p.authOK || len(enc) == 0 {
 		return recordlayer.InnerPlaintext{}, zzErrAuth
 	}
@@ -46,13 +50,15 @@ func (p *zzProt13) Open(h recordlayer.UnifiedHeader, seq uint64, enc []byte) (re
 //symgo:entry covers=delivered13,dropped13,unauthorised_epoch_not_used
 func zzRx13OneRecord() {
 	opens, used := 0, -1
+	var seen []recordlayer.UnifiedHeader
+	var seenN []int
 	c := zzRxConn(&zzRxSuite{}, false)
 	common := dtlsstate.CommonState(c.state)
 	st := dtlsstate.Activate13(c.state)
 	c.state = st
 	common.LocalVersion = protocol.Version1_3
 	gen := func(epoch uint16, id int) *dtlsstate.TrafficGeneration {
-		return &dtlsstate.TrafficGeneration{Epoch: epoch, Protection: &zzProt13{authOK: zzsymBool("authOK"), opens: &opens, id: id, used: &used}}
+		return &dtlsstate.TrafficGeneration{Epoch: epoch, Protection: &zzProt13{authOK: zzsymBool("authOK"), opens: &opens, id: id, used: &used, seen: &seen, seenN: &seenN}}
 	}
 	st.TrafficKeys.Install(nil, gen(2, 2))
 	st.TrafficKeys.Install(nil, gen(3, 3))
@@ -77,6 +83,21 @@ func zzRx13OneRecord() {
 	zzsymAssume((rec[0]&0x04 != 0) == (lbit == 1))
 	addr0 := c.rAddr
 	outcome, err := c.handleIncomingPacket(context.Background(), rec, &net.UDPAddr{Port: 2}, nil)
+	// what is authenticated is the header AS IT WAS ON THE WIRE: every header handed to the AEAD carries the
+	// wire's C/S/L bits, epoch bits, CID bytes, sequence-number bits and (if present) length field
+	hdr := 1 + cidLen + 1 + sbit + 2*lbit
+	for i := range seen {
+		h := seen[i]
+		zzsymAssert(h.SeqBit == (sbit == 1), "aad_header_seq_bit_as_on_wire")
+		zzsymAssert(h.LengthBit == (lbit == 1), "aad_header_length_bit_as_on_wire")
+		zzsymAssert(h.EpochLow == rec[0]&3, "aad_header_epoch_bits_as_on_wire")
+		zzsymAssert(len(h.ConnectionID) == 0 || zzsymEqBytes(h.ConnectionID, rec[1:1+cidLen]), "aad_header_cid_as_on_wire")
+		if lbit == 1 {
+			wireLen := uint16(rec[hdr-2])<<8 | uint16(rec[hdr-1])
+			zzsymAssert(h.Length == wireLen, "aad_header_length_as_on_wire")
+		}
+		zzsymAssert(seenN[i] == n-hdr, "aead_gets_whole_record_body")
+	}
 	if len(c.decrypted) == 1 {
 		zzsymCover("delivered13")
 		zzsymAssert(used >= 2, "delivered_only_after_open")
